@@ -2,16 +2,28 @@ from __future__ import absolute_import
 from __future__ import print_function
 
 import six
+import logging
 import itertools
 from pybufrkit.descriptors import flat_member_ids
 from pybufrkit.templatedata import FixedReplicationNode, DelayedReplicationNode
 
 __all__ = ['BufrTableDefinitionProcessor']
 
+log = logging.getLogger(__file__)
+
 
 class BufrTableDefinitionProcessor(object):
 
     def process(self, bufr_message):
+        try:
+            return self.process_table_definition(bufr_message)
+        except AssertionError as e:
+            # Not in the layout that is used for defining tables. It is still a valid
+            # message of its data category and there is nothing to register from it.
+            log.debug('Not a table definition message: {}'.format(e))
+            return [[], {}, {}]
+
+    def process_table_definition(self, bufr_message):
         assert bufr_message.n_subsets.value == 1, 'Expect only one subset for defining BUFR tables, got {}'.format(
             bufr_message.n_subsets.value)
         bufr_message.wire()
